@@ -74,6 +74,12 @@ NOTES = {
  "C18-6a": "first run of C18 (tools/selftest.sh before the confirmation batch) missed it: no event put a removed file back with the time stamp it had; C18 gained that letter, an alphabet for it and the random op",
  "C20-6a": "the version of C20 before this round had no text longer than 50 characters and no requester name longer than 50 (not run against the change; the gap was closed before the confirmation batch ran): creating requests with long texts, a requester with a 59-character name",
  "C13-6a": "caught by the first run (2**31 was in the prime menu); the menu gained primes around every byte boundary",
+ "C19-7a": "first run of C19 (tools/selftest.sh) missed it (scripted responses carried no optional header field): one response in four now carries Server Correlation Value (1.4+) / Server Hashed Password (2.0)",
+ "C20-7a": "first run of C20 (tools/selftest.sh) missed it (DeriveKey always had one base object or explicit data): grid of DeriveKey from two or three canary objects in every order",
+ "C11-7a": "first run of C11 missed it (no authentication service behind C11's sessions; C17 caught it): session cases with a scripted SLUGS service that changes the groups between messages",
+ "C12-7a": "needs a second connection: invisible to C12's single connection by nature; C10 reached the blocked state but ended in a harness error (IndexError in the serial-order search), now reported as 'requests never answered'",
+ "C07-7a": "a concurrency change (informational requests served without the lock): invisible to C07's sequential histories by nature, caught by C10 (schedules)",
+ "C05-7a": "caught by the first run with a single case: all-zero / all-False wrapping parameters were promoted from a rarely drawn probe class into the bulk",
 }
 rows = {}
 for log in sys.argv[1:]:
